@@ -23,8 +23,8 @@ DEFAULT_COSTS = {"spe": 0, "dup": 1, "hgt": 1, "floss": 1, "sloss": 1}
 class Measurer:
     """Stub for render.layout.measure_nodes."""
 
-    def __init__(self, sizes, per_kind, swap=False):
-        self.sizes, self.per_kind, self.swap = sizes, per_kind, swap
+    def __init__(self, sizes, per_kind, swap=False, split=False):
+        self.sizes, self.per_kind, self.swap, self.split = sizes, per_kind, swap, split
         self.requests = []
 
     def __call__(self, nodes, params):
@@ -35,7 +35,11 @@ class Measurer:
             w, h = self.sizes[KINDS.index(kind)] if self.per_kind else self.sizes[i]
             if self.swap:
                 w, h = h, w
-            out.append(MeasureBox(width=w, height=h, depth=0))
+            if self.split:
+                # TeX boxes have a depth below the baseline: the same overall height split 1/3 above, 2/3 below
+                out.append(MeasureBox(width=w, height=h / 3, depth=h - h / 3))
+            else:
+                out.append(MeasureBox(width=w, height=h, depth=0))
         return out
 
 
@@ -106,9 +110,9 @@ def concrete_sizes(values, n_branches, per_kind, sym_params):
     return sizes, params
 
 
-def run_layout(rec, orientation, sizes, per_kind, params, swap=False, render=True):
+def run_layout(rec, orientation, sizes, per_kind, params, swap=False, render=True, split=False):
     """Run the real layout (and renderer) with the stub measurer.  Returns (layout, tikz text or None, measurer)."""
-    meas = Measurer(sizes, per_kind, swap)
+    meas = Measurer(sizes, per_kind, swap, split)
     saved = LAYOUT.measure_nodes
     LAYOUT.measure_nodes = meas
     try:
